@@ -189,8 +189,88 @@ def rule_ack_reaches_the_prober(ctx: Ctx) -> None:
     need(n >= 1, "C13-3: no ping send site found")
 
 
+def rule_timer_discipline(ctx: Ctx) -> None:
+    """C13-7: (a) the periodic probe tick re-arms itself on every way out of its handler — it is the only thing that probes and sweeps phi,
+    so one early return stops failure detection for good.  (b) `_pending_acks[k]` holds the *armed* timeout for member k; an entry is
+    forgotten only after its timer was cancelled, or by the handler of that very timer when it fires: a timer that is forgotten but still
+    armed fires later against whatever state the member is in then (a live member that happens to be SUSPECT is declared DEAD), and the ack
+    that would have stopped it finds nothing to cancel.  (c) an entry is overwritten only after the old timer was cancelled if present."""
+    prog = ctx.prog
+    c = prog.cls(MEM, "MembershipProtocol")
+    D = "self._pending_acks"
+    # (a)
+    pt = c.methods["_handle_probe_tick"]
+    ff = ctx.flow(pt)
+    ticks = [k for k in calls_in(pt.node) if path_of(k.func) == "Event" and any(kw.arg == "event_type" and isinstance(kw.value, ast.Constant) and kw.value.value == "MembershipProbeTick" for kw in k.keywords)
+             and any(kw.arg == "target" and path_of(kw.value) == "self" for kw in k.keywords)]
+    tick_nodes = [node_of(ff.cfg, k) for k in ticks]
+    bad = [p_ for p_ in enumerate_paths(ff, ff.cfg.entry) if p_.end == "exit" and not any(x in tick_nodes for x in p_.nodes)]
+    ctx.ob("C13-7", "G2", pt, ticks[0] if ticks else None, bool(ticks) and not bad,
+           "the probe tick schedules the next MembershipProbeTick for itself on every path through its handler" + ("" if not bad else f" — not on [{bad[0].describe()}]"))
+    # handlers of the timers stored in the table (event types of the stored events, through the dispatch table of handle_event)
+    he = c.methods["handle_event"]
+    dispatch = {}
+    for d_ in [x for x in walk_scope(he.node, include_root=False) if isinstance(x, ast.Dict)]:
+        for k_, v_ in zip(d_.keys, d_.values):
+            if isinstance(k_, ast.Constant) and (path_of(v_) or "").startswith("self."):
+                dispatch[k_.value] = path_of(v_).split(".", 1)[1]
+    own_handlers = set()
+    stores = []
+    for m in c.methods.values():
+        sd = None
+        for st in walk_stmts(m.node.body):
+            if isinstance(st, ast.Assign) and isinstance(st.targets[0], ast.Subscript) and path_of(st.targets[0].value) == D:
+                sd = sd or single_defs(m)
+                stores.append((m, st))
+                ev = expand(st.value, sd)
+                if isinstance(ev, ast.Call):
+                    for kw in ev.keywords:
+                        if kw.arg == "event_type" and isinstance(kw.value, ast.Constant) and kw.value.value in dispatch:
+                            own_handlers.add(dispatch[kw.value.value])
+    need(len(stores) >= 2 and own_handlers, f"C13-7: expected the two timer stores into {D} and their handlers, found {len(stores)} / {sorted(own_handlers)}")
+
+    def cancel_nodes(m, mf, key):
+        return [node_of(mf.cfg, k) for k in calls_in(m.node) if isinstance(k.func, ast.Attribute) and k.func.attr == "cancel" and unparse(k.func.value).replace(" ", "") == f"{D}[{key}]"]
+    n = 0
+    for m in c.methods.values():
+        mf = None
+        removals = [(st, unparse(t.slice).replace(" ", "")) for st in walk_stmts(m.node.body) if isinstance(st, ast.Delete) for t in st.targets if isinstance(t, ast.Subscript) and path_of(t.value) == D]
+        removals += [(k, unparse(k.args[0]).replace(" ", "") if k.args else "*") for k in calls_in(m.node) if isinstance(k.func, ast.Attribute) and k.func.attr in ("pop", "clear", "popitem") and path_of(k.func.value) == D]
+        for site, key in removals:
+            n += 1
+            mf = mf or ctx.flow(m)
+            nd = node_of(mf.cfg, site)
+            cn = cancel_nodes(m, mf, key)
+            ok = m.name in own_handlers or (bool(cn) and not always_before(ctx, m, lambda x: x in cn, lambda x: x is nd))
+            ctx.ob("C13-7", "G2", m, site, ok, f"{m.qual}: the pending timer of `{key}` is forgotten only after `{D}[{key}].cancel()` on every path, or by the handler of that timer itself ({sorted(own_handlers)})")
+    for m, st in stores:
+        n += 1
+        mf = ctx.flow(m)
+        key = unparse(st.targets[0].slice).replace(" ", "")
+        nd = node_of(mf.cfg, st)
+        cn = cancel_nodes(m, mf, key)
+        bad = [p_ for p_ in enumerate_paths(mf, mf.cfg.entry, stop=lambda x: x is nd) if p_.end == "stop" and p_.nodes[-1] is nd
+               and not any(x in cn for x in p_.nodes) and ("notin", key, D) not in p_.facts]
+        ctx.ob("C13-7", "G2", m, st, not bad, f"{m.qual}: before a new timer is stored for `{key}` the old one, if any, is cancelled" + ("" if not bad else f" — not on [{bad[0].describe()}]"))
+    need(n >= 4, f"C13-7: expected >= 4 removal/overwrite sites of {D}, found {n}")
+    # the detector's report is its phi, unmodified
+    sa = prog.func(PHI, "PhiAccrualDetector.stats_at")
+    mk = [k for k in calls_in(sa.node) if path_of(k.func) == "PhiAccrualStats"]
+    sd = single_defs(sa)
+    ok = len(mk) == 1
+    if ok:
+        kw = {k_.arg: expand(k_.value, sd) for k_ in mk[0].keywords}
+        phi_ok = isinstance(kw.get("current_phi"), ast.Call) and path_of(kw["current_phi"].func) == "self.phi" and [path_of(a) for a in kw["current_phi"].args] == ["now_s"]
+        sus = kw.get("is_suspected")
+        sus_ok = sus is not None and {f.sig for f in atoms(sus, True)} == {("le", "self._threshold", "self.phi(now_s)")}
+        ok = phi_ok and sus_ok
+    ctx.ob("C13-6", "G7", sa, mk[0] if mk else None, ok, "stats_at reports phi(now_s) itself and suspicion as phi >= threshold: the reported level never drops while no heartbeat arrives (no re-mapping of the saturated value)")
+    ctx.floor("C13-7", 5)
+
+
 def run(ctx: Ctx) -> None:
     prog = ctx.prog
+    ctx.guarded(rule_timer_discipline)
     ctx.guarded(rule_ack_reaches_the_prober)
     ctx.guarded(rule_detector_per_member)
     ctx.guarded(rule_phi_shape)
@@ -284,6 +364,10 @@ def run(ctx: Ctx) -> None:
 
 
 MUTANTS = [
+    ("ping-forgets-armed-timer", MEM, "            if self._members[sender].state == MemberState.SUSPECT:\n                self._members[sender].state = MemberState.ALIVE\n\n        # Send ack back", "            if self._members[sender].state == MemberState.SUSPECT:\n                self._members[sender].state = MemberState.ALIVE\n            self._pending_acks.pop(sender, None)\n\n        # Send ack back", "C13-7"),
+    ("probe-tick-returns-early-without-rearm", MEM, "    def _handle_probe_tick(self, event: Event) -> list[Event]:\n        events: list[Event] = []\n", "    def _handle_probe_tick(self, event: Event) -> list[Event]:\n        if not self._members:\n            return []\n        events: list[Event] = []\n", "C13-7"),
+    ("suspicion-timer-overwrites-without-cancel", MEM, "        if target_name in self._pending_acks:\n            self._pending_acks[target_name].cancel()\n        self._pending_acks[target_name] = suspicion_event", "        self._pending_acks[target_name] = suspicion_event", "C13-7"),
+    ("stats-report-zero-when-saturated", PHI, "        current_phi = self.phi(now_s)\n        return PhiAccrualStats(", "        current_phi = self.phi(now_s)\n        if not math.isfinite(current_phi):\n            current_phi = 0.0\n        return PhiAccrualStats(", "C13-6"),
     ("ack-to-unknown-sender-goes-to-self", MEM, "            reply_to = metadata.get(\"from_entity\", event.target)", "            reply_to = event.target", "C13-3"),
     ("members-share-one-detector", MEM, "            detector=PhiAccrualDetector(\n                threshold=self._phi_threshold,\n                initial_interval=self._probe_interval,\n            ),\n", "            detector=self._shared_detector,\n", "C13-6"),
     ("no-indirect-probes-no-suspicion", MEM, "        # Pick random delegates (excluding self and target)", "        if self._indirect_probe_count <= 0:\n            return []\n        # Pick random delegates (excluding self and target)", "C13-3"),
